@@ -242,6 +242,30 @@ namespace chaiscript {
     }
 
   public:
+#ifdef CHAISCRIPT_VERIF
+    /// Verification-only, read-only: shape of the calling thread's evaluation state
+    struct Verif_Stack_Shape {
+      std::size_t stacks;
+      std::size_t scopes_in_top_stack;
+      std::size_t call_param_lists;
+      std::size_t params_in_top_list;
+      std::size_t conversion_saves;
+      int call_depth;
+      bool conversion_saves_enabled;
+    };
+
+    Verif_Stack_Shape verif_stack_shape() {
+      auto &holder = m_engine.get_stack_holder();
+      auto &saves = m_engine.conversions().conversion_saves();
+      return Verif_Stack_Shape{holder.stacks.size(),
+                               holder.stacks.empty() ? 0 : holder.stacks.back().size(),
+                               holder.call_params.size(),
+                               holder.call_params.empty() ? 0 : holder.call_params.back().size(),
+                               saves.saves.size(),
+                               holder.call_depth,
+                               saves.enabled};
+    }
+#endif
      
     /// \brief Virtual destructor for ChaiScript
     virtual ~ChaiScript_Basic() = default;
